@@ -335,7 +335,7 @@ Proof.
     + (* int *)
       destruct (atoi v) as [z|] eqn:A; [|discriminate]. apply String.eqb_eq in W.
       split.
-      * intro E. subst v. vm_compute in A. discriminate.
+      * intro E. rewrite E in A. cbv in A. discriminate.
       * intro Hne. assert (Ev : String.eqb v "" = false) by (apply String.eqb_neq; exact Hne). rewrite Ev.
         rewrite W. split; reflexivity.
     + (* float *)
@@ -520,9 +520,9 @@ Proof.
     assert (R : min_int <= z <= max_int).
     { unfold atoi in A. destruct (split_sign v) as [neg body]. destruct body as [|a r]; [discriminate|].
       destruct (all_digits (String a r)); [|discriminate].
-      destruct (((if neg then - digits_val (String a r) 0 else digits_val (String a r) 0) <? min_int)
-                || (max_int <? (if neg then - digits_val (String a r) 0 else digits_val (String a r) 0))) eqn:Rg; [discriminate|].
-      inversion A; subst z. lia. }
+      set (zz := if neg then - digits_val (String a r) 0 else digits_val (String a r) 0) in *.
+      destruct ((zz <? min_int) || (max_int <? zz)) eqn:Rg; [discriminate|].
+      assert (Ez : z = zz) by congruence. rewrite Ez. clearbody zz. unfold min_int, max_int in *. lia. }
     rewrite (atoi_print_int z R). apply eqb_refl'.
   - rewrite (Hpf v w H). apply eqb_refl'.
   - destruct (string_to_bool v) as [b|]; [|discriminate]. inversion H; subst w. destruct b; reflexivity.
